@@ -357,6 +357,57 @@ def rule_filter_idiom(ctx: Ctx) -> None:
         ctx.check(init == ["[]"] and p.retval is not None and strip_v(S(p.retval)) == "filtered_object_results", "C10-filter-idiom", "filter_object_results", "fresh", "output list is not a fresh list that is returned", fi=fr)
 
 
+def rule_manager(ctx: Ctx) -> None:
+    """PerceptionEvaluationManager._filter_objects: both sides are filtered with the configured criteria (estimates as estimates, ground truth as ground truth, same
+    transforms), the FILTERED lists are matched with the configured options, and the uuid selection is applied iff configured."""
+    fi = ctx.func("manager.perception_evaluation_manager.PerceptionEvaluationManager._filter_objects")
+    paths = enum_paths(ctx, fi)
+    ctx.require(len(paths) == 2, f"_filter_objects: {len(paths)} paths (expected with / without target_uuids)")
+    for p in paths:
+        f = {S(k): v for k, v in p.facts.items()}
+        uu = next((v for k, v in f.items() if "target_uuids" in k and k.startswith(("call:", "truthy:"))), None)
+        ctx.require(uu is not None, "_filter_objects: the target_uuids test was not recognised")
+        fo = [e for e in p.effects if e.kind == "call" and e.name == "filter_objects"]
+        ctx.check(len(fo) == 2, "C10-manager", "_filter_objects", "filters-both", f"filter_objects is applied {len(fo)}x; estimates and ground truth must each be filtered once", fi=fi)
+        if len(fo) != 2:
+            continue
+        e_est = next((e for e in fo if S(e.kwargs.get("is_gt")) == "False"), None)
+        e_gt = next((e for e in fo if S(e.kwargs.get("is_gt")) == "True"), None)
+        ctx.check(e_est is not None and e_gt is not None, "C10-manager", "_filter_objects", "is_gt-flags", f"the two filter calls carry is_gt={[S(e.kwargs.get('is_gt')) for e in fo]}; expected one False (estimates) and one True (ground truth)", fi=fi)
+        if e_est is None or e_gt is None:
+            continue
+        GT = S(e_gt.kwargs.get("objects"))[: -len(".objects")] if S(e_gt.kwargs.get("objects")).endswith(".objects") else "?"
+        ctx.check(S(e_est.kwargs.get("objects")) == "estimated_objects", "C10-manager", "_filter_objects", "est:objects", f"the estimate filter receives `{S(e_est.kwargs.get('objects'))[:60]}`", fi=fi)
+        ctx.check(GT in ("frame_ground_truth", "copy(frame_ground_truth)", "copy.copy(frame_ground_truth)"), "C10-manager", "_filter_objects", "gt:objects",
+                  f"the ground-truth filter receives `{S(e_gt.kwargs.get('objects'))[:60]}`; expected the frame's objects", fi=fi)
+        for e, side in ((e_est, "est"), (e_gt, "gt")):
+            ctx.check(S(e.kwargs.get("**")) == "self.filtering_params", "C10-manager", "_filter_objects", f"{side}:criteria", f"the {side} filter is configured by `{S(e.kwargs.get('**'))}`; expected **self.filtering_params", fi=fi)
+            ctx.check(S(e.kwargs.get("transforms")).endswith("frame_ground_truth).transforms") or S(e.kwargs.get("transforms")) == "frame_ground_truth.transforms", "R-TF", "_filter_objects", f"{side}:transforms",
+                      f"the {side} filter receives transforms=`{S(e.kwargs.get('transforms'))}`; expected the frame's transforms", fi=fi)
+        sto = [e for e in p.effects if e.kind == "store" and S(e.recv).endswith(".objects")]
+        ctx.check(len(sto) == 1 and S(sto[0].recv) == GT + ".objects" and S(sto[0].value).startswith("filter_objects(") and "is_gt=True" in S(sto[0].value), "C10-manager", "_filter_objects", "gt:stored",
+                  f"the filtered ground truth is stored by {[(S(e.recv), S(e.value)[:40]) for e in sto]}; expected <frame copy>.objects = filter_objects(..., is_gt=True, ...)", fi=fi)
+        go = [e for e in p.effects if e.kind == "call" and e.name == "get_object_results"]
+        ctx.require(len(go) == 1, "_filter_objects: get_object_results is not called exactly once")
+        kw = {k: S(v) for k, v in go[0].kwargs.items()}
+        want = {"evaluation_task": "self.evaluation_task", "ground_truth_objects": GT + ".objects", "target_labels": "self.target_labels",
+                "matching_label_policy": "self.evaluator_config.label_params['matching_label_policy']", "matchable_thresholds": "self.filtering_params['max_matchable_radii']",
+                "transforms": GT + ".transforms", "uuid_matching_first": "self.filtering_params['uuid_matching_first']"}
+        for k, w in want.items():
+            ctx.check(kw.get(k) == w, "C10-manager", "_filter_objects", f"match:{k}", f"get_object_results({k}=`{str(kw.get(k))[:80]}`); expected `{w}`", fi=fi, expected=w, found=str(kw.get(k))[:120])
+        ctx.check(kw.get("estimated_objects", "").startswith("filter_objects(objects=estimated_objects,is_gt=False"), "C10-manager", "_filter_objects", "match:estimated_objects",
+                  f"the matcher receives estimated_objects=`{kw.get('estimated_objects', '')[:80]}`; expected the FILTERED estimates", fi=fi)
+        fr = [e for e in p.effects if e.kind == "call" and e.name == "filter_object_results"]
+        ctx.check((len(fr) == 1) == bool(uu), "C10-manager", "_filter_objects", f"uuid-selection:{int(bool(uu))}", f"target_uuids {'configured' if uu else 'not configured'} but filter_object_results is applied {len(fr)}x", fi=fi)
+        if fr:
+            k2 = {k: S(v) for k, v in fr[0].kwargs.items()}
+            ctx.check(k2.get("target_uuids") == "self.filtering_params['target_uuids']" and k2.get("object_results", "").startswith("get_object_results(") and k2.get("transforms") == GT + ".transforms",
+                      "C10-manager", "_filter_objects", "uuid-selection:args", f"filter_object_results receives {dict((k, v[:40]) for k, v in k2.items())}", fi=fi)
+        rv = p.retval
+        ctx.check(isinstance(rv, ast.Tuple) and len(rv.elts) == 2 and S(rv.elts[1]) == GT and S(rv.elts[0]).startswith("filter_object_results(" if uu else "get_object_results("), "C10-manager", "_filter_objects",
+                  f"returns:{int(bool(uu))}", f"returns `{S(rv)[:100]}`; expected (object results, the narrowed copy of the frame)", fi=fi)
+
+
 def rule_pure(ctx: Ctx) -> None:
     ef = Effects(ctx.index, ctx.resolver)
     ef.solve()
@@ -384,3 +435,4 @@ def run(ctx: Ctx) -> None:
     ctx.run(rule_lookup)
     ctx.run(rule_filter_idiom)
     ctx.run(rule_pure)
+    ctx.run(rule_manager)
